@@ -28,6 +28,10 @@ def obligations(tier):
                          "canonical section: no event of these kinds from it, every canonical line still decoded"))
     obs.append(Ob("C07.dispatch_wiring", "CH", "harness.h_track", "track_dispatch_wiring", 300, {"VF_TRACK": 0},
                   funcs=(IN + "InstrumentTrack._parse_data_from_chart_lines",)))
+    obs.append(Ob("C07.framing", "CH", "harness.h_chart", "framing", 300, funcs=("chartparse.chart.Chart._partition_lines_by_data_section",),
+                  bounds="3 sections x <=2 symbolic body lines of any length (blank lines included): this section's parser receives exactly its own body lines"))
+    obs.append(Ob("C07.decode.E.digit-word", "CH", "harness.h_lines", "decode_line", 900, {"VF_KIND": 2, "VF_SYM": 1, "VF_MAXD": maxd},
+                  funcs=(IN + "TrackEvent.ParsedData.from_chart_line",), bounds="a track event whose word is a symbolic digit string: stored verbatim as a string"))
     return obs
 
 
